@@ -173,6 +173,81 @@ def gen_hostile(rng, ctl=False) -> str:
     return "".join(rng.choice(al) for _ in range(rng.randint(0, 10)))
 
 
+NUMS = ["0", "1", "5", "9", "10", "123", "499", "500", "007", "", " ", "-1", "+1", "1_0", "x", "9" * 19, "1" * 4300, "1" * 4301, "\xb2", "1.5", "0x10", "٣" if False else "3"]
+WS = ["", "", "", " ", "  ", "\xa0", "\x85"]
+TOKS = ["a", "b", "k", "name", "filename", "q", "charset", "realm", "nonce", "max-age", "no-cache", "private", "*", "a*", "k*0", "k*1", "k*0*", "", "é", "A", "a b"]
+VALS = ["v", "x y", '"x y"', '"a\\"b"', '"a\\\\"', '"', '""', "", "utf-8\'\'%C3%A9", "UTF-8\'en\'%E2%82%AC", "iso-8859-1\'\'%E9", "x\'\'y", "\'\'%41", "%22", "a%22b", '"%22"', "é", "\xff",
+        "1", "0.5", "3600", "-1", "1" * 4301, "a,b", "a;b", "a=b", '"a;b"', '"a,b"', "dXNlcjpwYXNz", "w6k6w6k=", "/w=="]
+
+
+def _pick(rng, xs):
+    return rng.choice(xs)
+
+
+def gen_structured(rng) -> str:
+    """mostly-valid header text of one family of the property, with hostile fields."""
+    fam = rng.randrange(11)
+    w = lambda: _pick(rng, WS)  # noqa: E731
+    if fam == 0:    # Range
+        items = []
+        for _ in range(rng.randint(1, 3)):
+            k = rng.random()
+            a, b = _pick(rng, NUMS), _pick(rng, NUMS)
+            items.append(f"{w()}{a}{w()}-{w()}{b}{w()}" if k < 0.6 else f"-{b}" if k < 0.8 else f"{a}-" if k < 0.95 else a)
+        return _pick(rng, ["bytes", "bytes", "BYTES", "items", "", "é", " bytes "]) + _pick(rng, ["=", "=", "=", " = ", "", "=="]) + ",".join(items)
+    if fam == 1:    # Content-Range
+        a, b, c = _pick(rng, NUMS), _pick(rng, NUMS), _pick(rng, NUMS + ["*", "*"])
+        rng_ = _pick(rng, [f"{a}-{b}", f"{a}-{b}", "*", f"{a}", f"{a}-{b}-{c}"])
+        return _pick(rng, ["bytes", "bytes", "items", ""]) + _pick(rng, [" ", " ", "  ", "\xa0", ""]) + rng_ + _pick(rng, ["/", "/", "", "//"]) + c
+    if fam == 2:    # options header (Content-Type, Content-Disposition)
+        parts = [_pick(rng, ["text/html", "form-data", "multipart/form-data", "application/json", "a", "", "é/x", "A/B"])]
+        for _ in range(rng.randint(0, 4)):
+            parts.append(f"{w()}{_pick(rng, TOKS)}{_pick(rng, ['=', '=', '=', ' = ', '', '*=', '=='])}{_pick(rng, VALS)}{w()}")
+        return _pick(rng, [";", ";", "; ", " ;", ";;"]).join(parts)
+    if fam == 3:    # entity tags / If-Range
+        tags = []
+        for _ in range(rng.randint(1, 4)):
+            t = _pick(rng, ["a", "xyz", "", "*", "a b", 'a"b', "W/", "é", ","])
+            tags.append(_pick(rng, ['"%s"', '"%s"', 'W/"%s"', 'w/"%s"', "%s", '"%s', '%s"', 'W/%s']) % t)
+        return _pick(rng, [", ", ",", " , ", "\xa0,\x85", " "]).join(tags)
+    if fam == 4:    # Authorization / WWW-Authenticate
+        scheme = _pick(rng, ["Basic", "basic", "BASIC", "Digest", "Bearer", "Negotiate", "", "é", "Bäsic"])
+        k = rng.random()
+        if k < 0.4:
+            rest = _pick(rng, ["dXNlcjpwYXNz", "YTpi", "Og==", "QQ", "QQ=", "Q", "====", "w6k6w6k=", "/w==", "\xe9", "QQ\xe9==", "a b", "", "dXNlcg", "_-_-"]) + _pick(rng, ["", "", "=", "==", " "])
+        elif k < 0.8:
+            rest = ", ".join(f"{_pick(rng, TOKS)}={_pick(rng, VALS)}" for _ in range(rng.randint(1, 3)))
+        else:
+            rest = _pick(rng, VALS)
+        return scheme + _pick(rng, [" ", " ", "  ", "", "\xa0"]) + rest
+    if fam == 5:    # Cookie
+        return _pick(rng, ["; ", ";", " ; "]).join(f"{_pick(rng, TOKS)}{_pick(rng, ['=', '=', ' = ', ''])}{_pick(rng, VALS + ['\"\\\\377\"', '\"\\\\07\"', '\"\\\\\"'])}" for _ in range(rng.randint(1, 4)))
+    if fam == 6:    # dates
+        day = _pick(rng, ["Thu, ", "Thu,", "", "Xyz, ", "Thursday, "])
+        d = _pick(rng, ["01", "1", "31", "32", "0", "99999999999999999999", "x"])
+        mon = _pick(rng, ["Jan", "Feb", "jan", "Xxx", "13", "January"])
+        y = _pick(rng, ["2026", "26", "99", "0", "10000", "99999999999999999999999", "1" * 4301, "x"])
+        tm = _pick(rng, ["00:00:00", "23:59:60", "24:00:00", "0:0", "00:00:00.5", "99999999999:00:00", "x", ""])
+        tz = _pick(rng, ["GMT", "UT", "+0000", "-0000", "+0100", "+2359", "+2400", "+9999", "-9999", "+99999999999999999999", "EST", "", "Z", "+1" + "0" * 30])
+        return f"{day}{d} {mon} {y} {tm} {tz}".strip()
+    if fam == 7:    # Accept family
+        items = []
+        for _ in range(rng.randint(1, 4)):
+            it = _pick(rng, ["text/html", "text/*", "*/*", "*", "en-US", "en", "utf-8", "gzip", "a/b/c", "/", "", "é", "*/html", "text/html;level=1"])
+            if rng.random() < 0.7:
+                it += _pick(rng, [";q=", "; q=", ";Q=", ";q =", ";q*=", ";*="]) + _pick(rng, ["1", "0", "0.5", "1.0", "1.000", "2", "-1", "-0", "1e3", "", "x", ".5", "1.", "0." + "9" * 400,
+                                                                                             "1." + "0" * 30 + "1", "9" * 400, "٣"[:0] + "1"])
+            if rng.random() < 0.3:
+                it += ";" + _pick(rng, TOKS) + "=" + _pick(rng, VALS)
+            items.append(it)
+        return _pick(rng, [",", ", ", " , "]).join(items)
+    if fam == 8:    # Cache-Control / dict headers / CSP
+        return _pick(rng, [", ", ",", "; "]).join(f"{_pick(rng, TOKS)}{_pick(rng, ['=', '=', '', ' = ', ' '])}{_pick(rng, VALS)}" for _ in range(rng.randint(1, 4)))
+    if fam == 9:    # Age / Content-Length / Max-Forwards
+        return w() + _pick(rng, NUMS) + w()
+    return gen_hostile(rng)
+
+
 def _regroup(b: str) -> str:
     """MultiDict.items(multi=True) groups values by key in first-occurrence order."""
     if not b.startswith("ok ") or b == "ok ~":
@@ -370,6 +445,8 @@ def run(chk: Check) -> None:
         run_parsers(s)
     for _ in range(n):
         run_parsers(gen_hostile(rng))
+    for _ in range(3 * n):
+        run_parsers(gen_structured(rng))
     # control characters: outside the property's domain, model-vs-implementation only (no oracle),
     # never a trailing line feed for parse_etags (documented non-termination outside the domain)
     for _ in range(n // 4):
@@ -463,7 +540,7 @@ def run(chk: Check) -> None:
     for _ in range(n):
         over = {}
         for _ in range(rng.choice([1, 1, 1, 2, 3])):
-            over[rng.choice(HDRS)] = gen_hostile(rng)
+            over[rng.choice(HDRS)] = gen_hostile(rng) if rng.random() < 0.4 else gen_structured(rng)
         env_cases.append((over, rng.choice(["GET", "POST", "PUT", "HEAD"])))
     for over, method in env_cases:
         body = rng.choice(bodies)
